@@ -178,6 +178,25 @@ func (c *Ctx) loaderCrashSweep() {
 			}
 		}
 	}
+	// directive definitions whose arguments carry directives: chains, cycles and lassos (a cycle entered
+	// from a directive that sorts before it or after it), in every rotation of the names
+	for n := 1; n <= 4; n++ {
+		for entry := 0; entry <= n; entry++ {
+			for _, names := range [][]string{{"a", "b", "c", "d", "e"}, {"z", "b", "c", "d", "e"}, {"m", "z", "y", "x", "w"}} {
+				var sb strings.Builder
+				// names[0] → names[1] → … → names[n] → names[entry]
+				for i := 0; i <= n; i++ {
+					next := names[(i+1)%5]
+					if i == n {
+						next = names[entry]
+					}
+					sb.WriteString("directive @" + names[i] + "(x: Int @" + next + ") on ARGUMENT_DEFINITION\n")
+				}
+				add([]string{sb.String() + "type Query { f(a: Int @" + names[0] + "): Int }"})
+				add([]string{sb.String(), "type Query { f: Int }"})
+			}
+		}
+	}
 	// the corpus of the loader checks, former crash witnesses included, and its token mutations
 	for _, s := range loadCorpus() {
 		add([]string{s})
@@ -197,6 +216,37 @@ func (c *Ctx) loaderCrashSweep() {
 	c.Ev.Count("loader-crash-sweep", len(reqs))
 }
 
+// oddStringsIllTyped: string literals with characters that printers treat specially, written where
+// they are ill-typed (the error path renders the offending value) and where they are well-typed.
+func (c *Ctx) oddStringsIllTyped() {
+	sdl := "enum E { A B }\ninput In { i: Int s: String e: E l: [Int] }\ntype Query { f(i: Int, s: String, e: E, b: Boolean, d: ID, fl: Float, l: [Int], in: In): Int }"
+	odd := []string{`\u2028`, `\u2029`, `\u0085`, `\u0000`, `\u001f`, `\u007f`, `\ufeff`, `\ud800`, `\udfff`, `\uffff`, `\u00e9`, `\\`, `\"`, `\u{1F600}`, `\n\r\t\b\f`}
+	var reqs []string
+	for _, o := range odd {
+		for _, form := range []string{`"x` + o + `y"`, `"""x` + o + `y"""`, `"` + o + `"`} {
+			for _, pos := range []string{"i: %s", "s: %s", "e: %s", "b: %s", "d: %s", "fl: %s", "l: %s", "l: [%s]", "in: {i: %s}", "in: {e: %s}", "in: {l: [%s]}", "in: %s", "zz: %s"} {
+				doc := "{ f(" + fmt.Sprintf(pos, form) + ") }"
+				reqs = append(reqs, "validate default "+impl.HexW([]byte(sdl))+" "+impl.HexW([]byte(doc)))
+				reqs = append(reqs, "validate default "+impl.HexW([]byte(sdl))+" "+impl.HexW([]byte("query($v: Int = "+form+") "+doc)))
+			}
+		}
+	}
+	// the same characters raw (not as escapes)
+	for _, raw := range []string{"\u2028", "\u2029", "\u0085", "\ufeff", "\U0001F600", "\xff", "\xc3"} {
+		doc := "{ f(i: \"" + raw + "\", e: \"" + raw + "\", in: {l: \"" + raw + "\"}) }"
+		reqs = append(reqs, "validate default "+impl.HexW([]byte(sdl))+" "+impl.HexW([]byte(doc)))
+	}
+	out := c.Worker.Map(reqs)
+	for i, o := range out {
+		c.Ev.Case("odd:"+clip(o, 40), true)
+		if strings.HasPrefix(o, "CRASH") || strings.HasPrefix(o, "PANIC") || o == "TIMEOUT" {
+			b, _ := impl.UnhexW(strings.Fields(reqs[i])[3])
+			c.Report("runtime", "validate-crash:odd-string-ill-typed", fmt.Sprintf("validation of %q did not return normally: %s", string(b), clip(o, 300)), map[string]any{"op": "validate", "request": reqs[i], "go_observation": clip(o, 2000)})
+		}
+	}
+	c.Ev.Count("odd-strings-ill-typed", len(reqs))
+}
+
 func injectAgain(r *rng.R, s *gen.Schema, clause string) (f gen.SchemaFault, ok bool) {
 	defer func() {
 		if recover() != nil {
@@ -211,6 +261,7 @@ func checkC02(c *Ctx) {
 	pairs := c.genPairs(c.Pick(150, 1500), 40)
 	c.valPropsSweep(pairs, func(string) bool { return false }) // crashes and timeouts only
 	c.adversarialTimes()
+	c.oddStringsIllTyped()
 	c.loaderCrashSweep()
 	c.Ev.Rule = "validator vs Lean model on the imported graphql-js cases, their mutations (22 mutation kinds) and random rule subsets (all rules but OverlappingFieldsCanBeMerged are modelled); the REAL default rule set on generated valid / faulty / type-blind documents over generated schemas and on the adversarial size families (fragment fan-out, cycles through fields, alias ladders …): no crash, no timeout, no multi-second validation. Non-trivial: at least one error; distinct by error list."
 }
